@@ -338,7 +338,9 @@ func BuildCte(query *Query, expr *sqlparser.With) error {
 				data[copy.ID.String()] = evaluate
 				return nil, err
 			}
-			query.data[copy.ID.String()] = rs
+			// (the query of the body has a document copy of its own when the body brings a WITH:
+			// the result goes where the references to this CTE look, next to the guard set above)
+			data[copy.ID.String()] = rs
 			return rs, nil
 		}
 		query.data[copy.ID.String()] = evaluate
